@@ -386,6 +386,14 @@ def same_band_ratios(repo, rep, rule):
                     p = getattr(p, "_parent", None)
                 if not tail_off and not in_compare:
                     bad = c
+        quad = [c for c in ast.walk(fi.node) if isinstance(c, ast.Call) and isinstance(c.func, ast.Attribute) and c.func.attr in ("integrate", "cumulative_integrate")
+                or (isinstance(c, ast.Call) and (call_name(c) or "").split(".")[-1] in ("trapz", "trapezoid", "simpson", "simps"))]
+        if quad and bad is None:
+            rep.fail(rule, fi.file, quad[0].lineno, fi.qualname, unparse(quad[0])[:100],
+                     "one of the moments of this ratio statistic is integrated by a trapezoid / Simpson rule while the library's moments are sums "
+                     "weighted by the bin widths df: the end bins get half a width in one and a full width in the other, so for spectra with energy in "
+                     "the first or last bin |m1|/m0 can exceed 1 (spread NaN or outside [0, 81.03]) and periods are biased")
+            continue
         if bad is not None:
             rep.fail(rule, fi.file, bad.lineno, fi.qualname, unparse(getattr(bad, "_parent", bad))[:100],
                      "the total energy is taken from hs(), which includes the parametric high-frequency tail by default, while the other moments of "
@@ -394,3 +402,120 @@ def same_band_ratios(repo, rep, rule):
         else:
             rep.ok(rule, f"{fi.file}:{fi.node.lineno} SpecArray.{name}", "no energy total taken from hs()", "numerator and denominator share one band and quadrature")
     rep.floor(rule, "ratio statistics examined", n, 9)
+
+
+def wavenumber_polynomial(repo, rep, rule):
+    """wavenuma's depth correction is the published polynomial a = 1 + sum_n D_n (k0 h)^n, n = 1..5: every non-zero coefficient of the table
+    is summed, and the n-th coefficient multiplies the n-th power (the table may carry a leading 0 for n = 0, or be enumerated from 1)."""
+    fi = repo.func("wavespectra.core.utils.wavenuma")
+    D = None
+    for n in ast.walk(fi.node):
+        if isinstance(n, ast.Assign) and isinstance(n.value, (ast.List, ast.Tuple)) and isinstance(n.targets[0], ast.Name) and len(n.value.elts) >= 4:
+            D = (n.targets[0].id, n.value.elts, n)
+    if D is None:
+        for n in ast.walk(fi.node):
+            if isinstance(n, ast.Subscript) and isinstance(n.value, (ast.Tuple, ast.List)) and len(n.value.elts) >= 4:
+                D = ("<table>", n.value.elts, n)
+    loops = [n for n in ast.walk(fi.node) if isinstance(n, ast.For)]
+    if D is None or len(loops) != 1:
+        raise AnalysisError("wavenuma: coefficient table / loop not found")
+    loop = loops[0]
+    coef = [repo.const(fi.module, e) for e in D[1]]
+    if any(not isinstance(c, (int, float)) for c in coef):
+        raise AnalysisError("wavenuma: coefficient table is not constant")
+    it = loop.iter
+    pairs = None          # (table position, exponent)
+    if isinstance(it, ast.Call) and call_name(it) == "range":
+        a = [repo.const(fi.module, x) for x in it.args]
+        if it.args and isinstance(it.args[-1], ast.Call) and call_name(it.args[-1]) == "len":
+            a[-1] = len(coef)
+        if all(isinstance(x, int) for x in a):
+            rng = range(*a)
+            # the term must be  TABLE[i] * x ** i  with the same i
+            powv = [p for p in ast.walk(loop) if isinstance(p, ast.BinOp) and isinstance(p.op, ast.Pow)]
+            subs = [x for x in ast.walk(loop) if isinstance(x, ast.Subscript) and (unparse(x.value) == D[0] or isinstance(x.value, (ast.Tuple, ast.List)))]
+            if len(powv) == 1 and len(subs) == 1 and isinstance(loop.target, ast.Name):
+                v = loop.target.id
+                from ..astutil import signed_terms
+                def lin(e):
+                    # e == v + c  ->  c
+                    if isinstance(e, ast.Name) and e.id == v:
+                        return 0
+                    if isinstance(e, ast.BinOp) and isinstance(e.op, (ast.Add, ast.Sub)) and isinstance(e.left, ast.Name) and e.left.id == v:
+                        c = repo.const(fi.module, e.right)
+                        if isinstance(c, int):
+                            return c if isinstance(e.op, ast.Add) else -c
+                    return None
+                ci, ce = lin(subs[0].slice), lin(powv[0].right)
+                if ci is not None and ce is not None:
+                    pairs = [(i + ci, i + ce) for i in rng]
+    elif isinstance(it, ast.Call) and call_name(it) == "enumerate" and it.args and isinstance(loop.target, ast.Tuple) and len(loop.target.elts) == 2:
+        start = 0
+        if len(it.args) > 1:
+            start = repo.const(fi.module, it.args[1])
+        for k in it.keywords:
+            if k.arg == "start":
+                start = repo.const(fi.module, k.value)
+        src = it.args[0]
+        lo = 0
+        if isinstance(src, ast.Subscript) and isinstance(src.slice, ast.Slice) and src.slice.upper is None and src.slice.step is None:
+            lo = repo.const(fi.module, src.slice.lower) if src.slice.lower is not None else 0
+            src = src.value
+        if isinstance(start, int) and isinstance(lo, int) and (unparse(src) == D[0] or src is D[2]):
+            iv = loop.target.elts[0].id
+            powv = [p for p in ast.walk(loop) if isinstance(p, ast.BinOp) and isinstance(p.op, ast.Pow)]
+            if len(powv) == 1 and isinstance(powv[0].right, ast.Name) and powv[0].right.id == iv:
+                pairs = [(k, start + k - lo) for k in range(lo, len(coef))]
+    if pairs is None:
+        raise AnalysisError("wavenuma: the polynomial loop is not understood (coefficient / exponent pairing)")
+    used = {p: e for p, e in pairs if 0 <= p < len(coef)}
+    nz = [p for p, c in enumerate(coef) if c != 0]
+    first = nz[0] if nz else None
+    dropped = [p for p in nz if p not in used]
+    # exponent of the first non-zero coefficient must be 1 and exponents follow the table order
+    bad_exp = [p for p in nz if p in used and used[p] != 1 + (p - first)]
+    if dropped:
+        rep.fail(rule, fi.file, loop.lineno, fi.qualname, f"for ... in {unparse(it)}  ({len(coef)} table entries)",
+                 f"the polynomial loop leaves out coefficient(s) {[coef[p] for p in dropped]}: the wavenumber (hence celerity, wavelength, the wave-age test "
+                 "of the partitioning) is off by more than 0.1 % in intermediate water")
+    elif bad_exp:
+        rep.fail(rule, fi.file, loop.lineno, fi.qualname, f"for ... in {unparse(it)}: coefficient {coef[bad_exp[0]]} multiplies (k0 h)^{used[bad_exp[0]]}",
+                 "coefficients and powers of the depth-correction polynomial are paired off by one (the n-th coefficient must multiply the n-th power): "
+                 "wavenumber, celerity and wavelength are wrong in shallow and intermediate water")
+    else:
+        rep.ok(rule, f"{fi.file}:{loop.lineno} wavenuma", f"{unparse(it)}: {len(nz)} non-zero coefficients, powers 1..{len(nz) + (len(coef) - first - len(nz))}",
+               "every term of the polynomial is summed with its own power")
+
+
+def scale_free_guards(repo, rep, rule, T, names, type_them=False):
+    """Comparisons inside the named SpecArray statistics (collected by the units / homogeneity typing T): a quantity that scales with the
+    spectrum compared with a non-zero absolute constant makes the statistic change character below that energy level."""
+    from fractions import Fraction as Fr
+    from ..units import Q
+    if type_them:
+        for nm in names:
+            m = T.sa.methods.get(nm)
+            if m is not None:
+                try:
+                    T.eval_method(m, None, [], None)
+                except AnalysisError:
+                    pass
+    seen_ = set()
+    n = 0
+    for fi_, node_, l_, r_, rnode_ in T.compares:
+        if fi_.cls is None or fi_.cls.name != "SpecArray" or fi_.name not in names:
+            continue
+        if (fi_.qualname, node_.lineno) in seen_ or not isinstance(l_, Q) or not isinstance(r_, Q):
+            continue
+        seen_.add((fi_.qualname, node_.lineno))
+        n += 1
+        for a_, b_, bn_ in ((l_, r_, rnode_), (r_, l_, node_.left)):
+            if a_.h not in (Fr(0), None) and b_.lit and repo.const(fi_.module, bn_) not in (0, 0.0):
+                v_ = repo.const(fi_.module, bn_)
+                rep.fail(rule, fi_.file, node_.lineno, fi_.qualname, unparse(node_)[:100], anchor=f"{fi_.name}:degree-{a_.h}-vs-constant-{v_}", reason=
+                         f"the statistic is masked / replaced where a quantity scaling like k^{a_.h} with the spectrum falls below the constant {v_}: for "
+                         "such spectra the returned value is a fill value, not the quantity the definition gives (which does not depend on the energy level)")
+                break
+        else:
+            rep.ok(rule, f"{fi_.file}:{node_.lineno} {fi_.short}", unparse(node_)[:80], "scale-free guard", nontrivial=False)
+    return n
